@@ -19,18 +19,18 @@ Inductive wsitem :=
 Definition xws := list wsitem.
 
 (* the scan of a block comment body: [true] = the previous byte was a star that may close
-   the comment.  json-c quirk (kept by the model): a star seen in that state does NOT
-   stay a candidate, so star star slash does not close.  None = closed inside the body. *)
+   the comment (a further star keeps it a candidate: json-c commit d13d591, before which
+   star star slash did not close).  None = closed inside the body. *)
 Fixpoint block_st (s : bool) (body : list byte) : option bool :=
   match body with
   | [] => Some s
-  | b :: r => if s then (if b =? 47 then None else block_st false r) else block_st (b =? 42) r
+  | b :: r => if s && (b =? 47) then None else block_st (b =? 42) r
   end.
 Definition nozero (l : list byte) : bool := forallb (fun b => negb (b =? 0)) l.
 Definition wf_wsitem (i : wsitem) : bool :=
   match i with
   | WB b => is_ws b
-  | WBlock body => nozero body && match block_st false body with Some false => true | _ => false end
+  | WBlock body => nozero body && match block_st false body with Some _ => true | None => false end
   | WLine body => nozero body && negb (has_byte 10 body)
   end.
 Definition wf_xws (w : xws) : bool := forallb wf_wsitem w.
